@@ -182,12 +182,22 @@ def run(ctx, p):
     free = FREE.get(ent, (1, 1, 1, 1))
     s = [p["s"][j] if free[j] else 1.0 for j in range(4)]
     if ent in ("IGEOS_Solver", "GenEOS_Solver"):
-        # keep the pressure numbers >= 1e-5: below that the solvers' absolute bisect tolerance takes over
-        # (recorded as a known finding through the dedicated probe below)
+        # keep the pressure AND density numbers >= 1e-4: below that the solvers' absolute bisect tolerances (on p* in
+        # both solvers, on the Hugoniot density in the general one) take over - recorded as known findings through the
+        # dedicated probes below
         sp = fac(PRS, s)
         pmin = min(kw["pl"], kw["pr"]) * sp
         if pmin < 1e-4:
             s[0] *= 1e-4 / pmin
+        rmin = min(kw["rl"], kw["rr"]) * fac(RHO, s)
+        if rmin < 1e-4:
+            # raise the density numbers at fixed pressure numbers: M -> k M, T -> sqrt(k) T
+            k_ = 1e-4 / rmin
+            s[0] *= k_
+            s[2] *= math.sqrt(k_)
+    suffix = ""
+    if ent == "EscapeOfHEProducts" and max(s[2] / s[1], s[1] / s[2]) > 10.0:
+        suffix = " [time/length unit ratio > 10]"
     try:
         kw2 = scale_kw(kw, dims, s)
     except KeyError as ex:
@@ -224,13 +234,17 @@ def run(ctx, p):
         dd = np.where(both_nan, 0.0, np.abs(a - b))
         dd = np.where(np.isnan(dd), np.inf, dd)
         dmax = max(float(np.max(dd)) - floors.get(f, 0.0) * fac(fdims[f], s), 0.0) / sc
-        ctx.observe("units", name, dmax <= tol, branch=f, measure=dmax, tol=tol, nontrivial=bool(np.any(a != 0)),
+        ctx.observe("units", name, dmax <= tol, branch=f + suffix, measure=dmax, tol=tol, nontrivial=bool(np.any(a != 0)),
                     detail=dict(scale=s, params=kw, geometry=geom, t=d["t"]))
 
 
 # ---- known finding probe: tiny pressure numbers -----------------------------------------------------------------------
 def gen_tiny(rng, i, tier):
     return dict(which=["IGEOS", "GenEOS"][i % 2] if tier == "thorough" else "IGEOS", sp=10.0 ** (-(8 + (i % 5))))
+
+
+def gen_ehep_ratio(rng, i, tier):
+    return dict(entry="EscapeOfHEProducts", seed=int(rng.integers(2 ** 31)), s=[1.0, 1e-3, 1e3, 1.0] if i % 2 == 0 else [1.0, 1e3, 1e-3, 1.0], dense=True)
 
 
 def run_tiny(ctx, p):
@@ -254,6 +268,29 @@ def run_tiny(ctx, p):
                 detail=dict(pressure_scale=sp))
 
 
+def run_ehep_ratio(ctx, p):
+    """EHEP decides region membership with Euclidean distances in the (x,t) plane and an absolute tolerance: probe points
+    a little beyond the region II / vacuum boundary x = D t in unit systems with very different length and time numbers"""
+    from exactpack.solvers.ehep.ehep import EscapeOfHEProducts
+    rng = np.random.default_rng(p["seed"])
+    kw = C.gen_ehep(rng, 1)
+    s = p["s"]
+    a = ctx.make(EscapeOfHEProducts, **kw)
+    t = 0.8 * min(kw["tmax"], kw["xmax"] / kw["D"])
+    x = kw["D"] * t * (1.0 + np.array([-3e-3, -1e-3, 1e-4, 1e-3, 3e-3]))
+    A = ctx.call(a, x, t)
+    kw2 = scale_kw(kw, STATIC["EscapeOfHEProducts"], s)
+    b = ctx.make(EscapeOfHEProducts, **kw2)
+    B = ctx.call(b, x * s[1], t * s[2])
+    for f in ("density", "pressure", "velocity"):
+        aa = np.asarray(A[f], float) * fac(FIELDS[f], s)
+        bb = np.asarray(B[f], float)
+        sc = max(float(np.max(np.abs(aa))), float(np.max(np.abs(bb))), 1e-300)
+        d = float(np.max(np.abs(aa - bb))) / sc
+        ctx.observe("units", "EscapeOfHEProducts", d <= 1e-9, branch=f + " [time/length unit ratio > 10]", measure=d, tol=1e-9,
+                    detail=dict(scale=s, params=kw, regions=[str(r) for r in A["region"]], regions_scaled=[str(r) for r in B["region"]]))
+
+
 def reach(tot, tier):
     seen = set(k.split("|")[1] for k in tot["stats"])
     out = []
@@ -267,4 +304,5 @@ def reach(tot, tier):
 UNITS = [
     Unit("scale", gen, run, quick=len(ENTRIES) * 8, thorough=len(ENTRIES) * 80, min_nontrivial=500),
     Unit("tiny", gen_tiny, run_tiny, quick=5, thorough=20, min_nontrivial=1),
+    Unit("ehep.ratio", gen_ehep_ratio, run_ehep_ratio, quick=4, thorough=40, min_nontrivial=4),
 ]
